@@ -137,6 +137,7 @@ type FnCtx struct {
 	qctr         int
 	spawned      []string
 	ownT         []modTarget
+	peelAlt      map[string]string
 	retReach     []string
 	witness      map[string]string
 	loopTargets  map[*ssa.BasicBlock]*loopFrame
@@ -461,7 +462,11 @@ func (fc *FnCtx) peelGuarded(name string) (string, []string, bool) {
 			break
 		}
 		if !(fc.localRefs[p[1]] || p[1] == "!merged") {
-			guards = append(guards, sx(">=", p[1], "ac0"))
+			g := sx(">=", p[1], "ac0")
+			if alt, ok := fc.peelAlt[name]; ok {
+				g = or(g, alt) // a havoc of an empty index range changes nothing
+			}
+			guards = append(guards, g)
 		}
 		name = p[0]
 	}
